@@ -6,3 +6,5 @@ export CARGO_NET_OFFLINE=true
 mkdir -p target evidence replays
 python3 tools/gen_shadow.py "${VERIF_REPO:-/repo}" "$(pwd)/shadow"
 cargo build --offline -p verif-harness 2>&1 | tail -3
+# the same harness without debug assertions (a fifth of the runs of every check execute under it)
+cargo build --offline -p verif-harness --profile nodebug 2>&1 | tail -1
